@@ -455,3 +455,46 @@ Example c17_nonvacuous_path :
   path_parent (posix_comps [47]) = None /\
   posix_comps (posix_join [47;99] [97;92;98;47;47;100]) = [[99]; [97;92;98]; [100]].
 Proof. repeat split; vm_compute; reflexivity. Qed.
+
+(* ====================================================================================
+   Round 5 — THE PROPERTY, in one statement on the code as compiled from the source, with no hypothesis on the
+   identifiers: every code_file / debug_file (arbitrary byte strings, either separator style, mixed, trailing, `.`,
+   `..`, drive / UNC prefixes, NUL, non-ASCII), every DebugId value, every raw code id, every FileKind:
+   the paths are genuinely relative; joined onto a symbol / cache directory they keep the root (textually under POSIX,
+   Windows and concatenation rules; as std::path components on unix, including the parent directory that gets created);
+   through join_rel + Url::join — also in the mozilla-CAB variant — they are requested below the server's base directory. *)
+Theorem c17_property : forall code_file debug_file d raw_code_id kind l,
+  bytes code_file -> opt_bytes debug_file ->
+  g_lookup (module_of_ids code_file debug_file d raw_code_id) kind = Some l ->
+  safe_rel (cache_rel l) /\ safe_rel (server_rel l) /\
+  (forall style root, is_prefix root (join style root (cache_rel l)) = true) /\
+  (forall root, root <> [] ->
+     comps_prefix (posix_comps root) (posix_comps (posix_join root (cache_rel l))) = true /\
+     Forall (fun c => c <> dotdot) (posix_comps (cache_rel l)) /\
+     exists t, path_parent (posix_comps (posix_join root (cache_rel l))) = Some (posix_comps root ++ t) /\
+               Forall (fun c => c <> dotdot) t) /\
+  (forall base_path, exists r, g_request_path base_path (server_rel l) = Some r /\
+                               is_prefix (base_dir base_path) r = true) /\
+  (forall l', g_moz_lookup l = Ret l' ->
+     cache_rel l' = cache_rel l /\ safe_rel (server_rel l') /\
+     forall base_path, exists r, g_request_path base_path (server_rel l') = Some r /\
+                                 is_prefix (base_dir base_path) r = true).
+Proof. exact full_property. Qed.
+Print Assumptions c17_property.
+
+(* the code-info variant (`<code file>/<CODE ID>/<code file>.sym`, only ever joined onto a server URL) *)
+Theorem c17_property_code_info : forall code_file debug_file d raw_code_id p base_path,
+  bytes code_file -> opt_bytes debug_file ->
+  g_code_info_breakpad_sym_lookup (module_of_ids code_file debug_file d raw_code_id) = Some p ->
+  safe_rel p /\ exists r, g_request_path base_path p = Some r /\ is_prefix (base_dir base_path) r = true.
+Proof. exact full_property_code_info. Qed.
+Print Assumptions c17_property_code_info.
+
+(* non-vacuity: a module with mixed separators, a PDB 2.0 id parsed from text and a raw code id with junk *)
+Example c17_nonvacuous_property :
+  exists d l, parse_breakpad [51;99;48;100;50;49;101;52;49] = Some d /\
+    g_lookup (module_of_ids [67;58;47;119;92;107;46;100;108;108] (Some [99;58;92;98;47;84;46;80;68;66]) (Some d) (Some [53;65;47;46;46]))
+             KBinary = Some l /\
+    cache_rel l = [84;46;80;68;66;47;51;67;48;68;50;49;69;52;49;47;107;46;100;108;108] /\   (* T.PDB/3C0D21E41/k.dll *)
+    server_rel l = [107;46;100;108;108;47;53;97;47;107;46;100;108;108].                    (* k.dll/5a/k.dll *)
+Proof. eexists. eexists. split; [vm_compute; reflexivity|]. split; [vm_compute; reflexivity|]. split; reflexivity. Qed.
